@@ -213,6 +213,17 @@ def _cat_case(A, np, R, values, key, full=True):
                 for sl in ((slice(None), slice(1, None)), (0,), (slice(None, None, -1), slice(None, None, 2))):
                     chk(c[sl], np.asarray(values)[sl], 'ndview:%r' % (sl,))
             chk(c.copy(), np.asarray(values), 'copy')
+            if values.ndim == 1 and values.size > 1:
+                # arrays derived with the parent's shape but another element order (the parent's codes are already computed here)
+                n = values.size
+                perm = np.arange(n)[::-1].copy()
+                perm[:2] = perm[:2][::-1]
+                for what, der, ref in (('permutation', lambda a: a[perm], np.asarray(values)[perm]), ('roll', lambda a: np.roll(a, 1), np.roll(np.asarray(values), 1)),
+                                       ('sort', lambda a: np.sort(a), np.sort(np.asarray(values))), ('repeat-last', lambda a: a[np.full(n, n - 1)], np.asarray(values)[np.full(n, n - 1)]),
+                                       ('take', lambda a: np.take(a, perm), np.take(np.asarray(values), perm))):
+                    chk(der(c), ref, 'same-shape-derived:' + what)
+                fresh = A.categorical_ndarray(values)          # codes of the parent not yet computed
+                chk(fresh[perm], np.asarray(values)[perm], 'same-shape-derived:permutation-before-parent-codes')
             c.jitter('uniform')
             ok = list(c.categories) == sorted(set(flat.tolist())) and bool(np.all(np.abs(c.codes - np.round(c.codes)) <= 0.5))
             c.jitter(None)
